@@ -24,6 +24,7 @@ import Imeta.Lemmas.Exif
 import Imeta.Lemmas.ExifForward
 import Imeta.Lemmas.ExifFlat
 import Imeta.Lemmas.ExifNested
+import Imeta.Lemmas.ExifField2
 namespace Imeta.Exif
 open Imeta
 
@@ -417,5 +418,51 @@ example : parsedOf (decodeTiff sampleTb nF true { order := .little, firstIfd := 
   decide +kernel
 example : (match idealRun sampleTb nF {} [nM, nL] with | .ok ex => (ex.make, ex.lensModel) | _ => ([], [])) =
     ([67, 97, 110, 111, 110], [82, 70, 32, 53, 48, 109, 109]) := by decide +kernel
+
+/-- **A field, end to end (IFD0): Software.**  Under the hypotheses of `C03_nested_tiff_exact`, if a is the last Software
+tag (IFD0, 0x0131) the reader parsed, ASCII and out of line, then the Software field DecodeTiff returns is exactly the bytes
+F[a.off, a.off + a.size) minus trailing NUL / blank padding — by `C03_ascii_exact` the string that was encoded. -/
+theorem C03_software_end_to_end (tb : Tables) (F : Bytes) (buffered : Bool) (h : Hdr) (cnt : Nat) (r' : R) (e : Option ErrKind)
+    (W : Tag → Prop) (hsmall : F.length < 2 ^ 32)
+    (w : World F (4 * 1024 * 1024) (if buffered then bufioSize else scratchSize) W)
+    (hroot : DirOK F { off := 0, base := 0, order := h.order, typ := h.firstIfdType, idx := 0 } h.firstIfd cnt (4 * 1024 * 1024)
+      (if buffered then bufioSize else scratchSize) (extent F))
+    (hrootW : ∀ x, IsEntry F { off := 0, base := 0, order := h.order, typ := h.firstIfdType, idx := 0 } h.firstIfd cnt x → W x)
+    (hres : decodeTiff tb F buffered h = .ok (r', e))
+    (pre post : List Tag) (a : Tag) (hsplit : r'.parsed = pre ++ a :: post) (h0 : a.ifd = ifd0) (hid : a.id = 0x0131)
+    (hemb : a.isEmbedded = false) (hasc : isASCII a = true) (hpost : ∀ t ∈ post, ¬(t.ifd = ifd0 ∧ t.id = 0x0131)) :
+    r'.ex.software = trimNUL (slice F a) :=
+  software_exact (decodeTiff_nested tb F buffered h cnt r' e W hsmall w hroot hrootW hres).2 pre post a hsplit h0 hid hemb hasc hpost
+
+/-- **A field, end to end (Exif directory): LensModel** (ExifIFD, 0xa434), reached through the pointer in IFD0 -/
+theorem C03_lensModel_end_to_end (tb : Tables) (F : Bytes) (buffered : Bool) (h : Hdr) (cnt : Nat) (r' : R) (e : Option ErrKind)
+    (W : Tag → Prop) (hsmall : F.length < 2 ^ 32)
+    (w : World F (4 * 1024 * 1024) (if buffered then bufioSize else scratchSize) W)
+    (hroot : DirOK F { off := 0, base := 0, order := h.order, typ := h.firstIfdType, idx := 0 } h.firstIfd cnt (4 * 1024 * 1024)
+      (if buffered then bufioSize else scratchSize) (extent F))
+    (hrootW : ∀ x, IsEntry F { off := 0, base := 0, order := h.order, typ := h.firstIfdType, idx := 0 } h.firstIfd cnt x → W x)
+    (hres : decodeTiff tb F buffered h = .ok (r', e))
+    (pre post : List Tag) (a : Tag) (hsplit : r'.parsed = pre ++ a :: post) (h0 : a.ifd = exifIFD) (hid : a.id = 0xa434)
+    (hemb : a.isEmbedded = false) (hasc : isASCII a = true) (hpost : ∀ t ∈ post, ¬(t.ifd = exifIFD ∧ t.id = 0xa434)) :
+    r'.ex.lensModel = trimNUL (slice F a) :=
+  lensModel_exact (decodeTiff_nested tb F buffered h cnt r' e W hsmall w hroot hrootW hres).2 pre post a hsplit h0 hid hemb hasc hpost
+
+/-- on the sample file, through the theorem (not by running the model): LensModel is "RF 50mm" -/
+example (r' : R) (e : Option ErrKind)
+    (hres : decodeTiff sampleTb nF true { order := .little, firstIfd := 8, firstIfdType := ifd0, exifLength := 0, imageType := 0 } = .ok (r', e)) :
+    r'.ex.lensModel = [82, 70, 32, 53, 48, 109, 109] := by
+  have hp : r'.parsed = [nM, nL] := by
+    have : parsedOf (decodeTiff sampleTb nF true { order := .little, firstIfd := 8, firstIfdType := ifd0, exifLength := 0, imageType := 0 }) = [nM, nL] := by
+      decide +kernel
+    rw [hres] at this; exact this
+  have := C03_lensModel_end_to_end sampleTb nF true { order := .little, firstIfd := 8, firstIfdType := ifd0, exifLength := 0, imageType := 0 }
+    2 r' e (fun x => x ∈ [nM, nP, nL]) (by decide) nWorld nRootOK
+    (by
+      intro x hx
+      obtain ⟨k, hk, he, _⟩ := hx
+      rcases nRootEntries k x hk he with rfl | rfl <;> simp)
+    hres [nM] [] nL (by rw [hp]; rfl) rfl rfl (by decide) (by decide) (by intro t ht; cases ht)
+  rw [this]
+  decide +kernel
 
 end Imeta.Exif
